@@ -92,8 +92,10 @@ impl Ob {
         self.0.push((name.to_string(), false, it.into_iter().map(|x| x as u64).collect()));
         self
     }
+    /// text observation; ndarray's `strides=.., layout=..` (memory layout, not content) is removed
     pub fn st(&mut self, name: &str, s: impl AsRef<str>) -> &mut Self {
-        self.0.push((name.to_string(), false, s.as_ref().bytes().map(|b| b as u64).collect()));
+        let text = if s.as_ref().contains("layout=") { strip_layout(s.as_ref().to_string()) } else { s.as_ref().to_string() };
+        self.0.push((name.to_string(), false, text.bytes().map(|b| b as u64).collect()));
         self
     }
     /// 2-d array with its shape
@@ -201,6 +203,8 @@ pub struct Spec<'a, T> {
     /// a public call that advances the value (fit_with on an incremental model ...): the history
     /// round trip -> mutate -> round trip must end in a value that observes like mutate(original)
     pub mutate: Option<&'a dyn Fn(&T) -> T>,
+    /// unstripped Debug text (layout audit)
+    pub debug_raw: Option<fn(&T) -> String>,
 }
 
 #[derive(Default, Clone, Debug)]
@@ -233,6 +237,7 @@ pub struct Out {
     pub entry: String,
     pub instance: String,
     pub variant: u64,
+    pub f_order: bool,
     pub viols: Vec<Violation>,
     pub cnt: Counters,
     /// per format: round trips done
@@ -242,6 +247,11 @@ pub struct Out {
     /// differs from what `Default` would give (0, false, None, "", empty)? A field that all
     /// instances of an entry leave at its default could be dropped by a round trip unnoticed.
     pub fields: std::collections::BTreeMap<String, FieldSeen>,
+    /// arrays with >= 2 dimensions seen inside the ORIGINAL values (from ndarray's Debug output)
+    /// and how many of them were not in standard (row-major) layout: memory layout is state that
+    /// serialisation drops (a restored array is always row-major)
+    pub arrays_2d: u64,
+    pub arrays_2d_non_standard: u64,
     /// panic text when using the ORIGINAL value panicked (observed as behaviour, listed in evidence)
     pub original_panics: Option<String>,
 }
@@ -345,10 +355,10 @@ fn audit_walk(v: &ciborium::value::Value, path: &str, out: &mut std::collections
 
 impl Out {
     pub fn new(entry: &str, instance: &str) -> Out {
-        Out { entry: entry.to_string(), instance: instance.to_string(), variant: crate::data::variant(), viols: Vec::new(), cnt: Counters::default(), per_format: Default::default(), sample: None, fields: Default::default(), original_panics: None }
+        Out { entry: entry.to_string(), instance: instance.to_string(), variant: crate::data::variant(), f_order: crate::data::f_order(), viols: Vec::new(), cnt: Counters::default(), per_format: Default::default(), sample: None, fields: Default::default(), arrays_2d: 0, arrays_2d_non_standard: 0, original_panics: None }
     }
     pub fn case(&self, format: &str) -> Value {
-        json!({"entry": self.entry, "instance": self.instance, "variant": self.variant, "format": format})
+        json!({"entry": self.entry, "instance": self.instance, "variant": self.variant, "f_order": self.f_order, "format": format})
     }
     pub fn viol(&mut self, shape: &str, format: &str, what: String) {
         let sig = format!("{}.{}", self.entry, shape);
@@ -357,7 +367,7 @@ impl Out {
     }
     /// a problem of the harness itself (fitting the instance failed ...): never a verdict
     pub fn machinery(&self, msg: &str) -> ! {
-        if self.variant > 0 {
+        if self.variant > 0 || self.f_order {
             // further data variants are best effort: a data set on which the instance cannot be
             // built (fit fails, no such OPTICS sample ...) is counted as out of domain
             std::panic::panic_any(SkipVariant(format!("{} / {} / variant {}: {}", self.entry, self.instance, self.variant, msg)));
@@ -404,6 +414,11 @@ pub fn round_trip<T: Serialize + DeserializeOwned>(o: &mut Out, spec: &Spec<T>, 
         }
     };
     let dbg0 = spec.debug.map(|d| d(v));
+    if let Some(raw) = spec.debug_raw {
+        let (n, bad) = count_layouts(&raw(v));
+        o.arrays_2d += n;
+        o.arrays_2d_non_standard += bad;
+    }
     let mut formats: Vec<Format> = BINARY_FORMATS.to_vec();
     if spec.json {
         formats.push(Format::Json);
@@ -567,6 +582,29 @@ fn compare<T>(o: &mut Out, spec: &Spec<T>, v: &T, restored: &T, obs0: &Ob, dbg0:
     let _ = v;
 }
 
+/// Narrow signature for one characterised failure shape: a refit from restored parameters differs
+/// from the refit from the original ones only in the last bits (relative 1e-9), and the original
+/// parameters held an array in non-standard memory layout (which a round trip turns into
+/// row-major): the estimator's sums run in memory order. Assigned only when the quoted numbers
+/// really are that close; any other difference keeps its generic signature.
+pub fn narrow_layout_dependent_refit(o: &mut Out, new_shape: &str) {
+    let re = regex::Regex::new(r"original (-?[0-9.eE+-]+|NaN|inf|-inf) \(bits [^)]*\) vs restored (-?[0-9.eE+-]+|NaN|inf|-inf) \(bits").unwrap();
+    let entry = o.entry.clone();
+    for v in o.viols.iter_mut() {
+        if !(v.sig.contains(".differs.refit") || v.sig.contains(".differs.checked.refit")) {
+            continue;
+        }
+        if let Some(c) = re.captures(&v.what) {
+            if let (Ok(a), Ok(b)) = (c[1].parse::<f64>(), c[2].parse::<f64>()) {
+                if (a - b).abs() <= 1e-9 * a.abs().max(b.abs()).max(1.0) {
+                    let second = if v.sig.contains("second_round_trip") { "second_round_trip." } else { "" };
+                    v.sig = format!("{}.{}{}", entry, second, new_shape);
+                }
+            }
+        }
+    }
+}
+
 pub fn eq_of<T: PartialEq>(a: &T, b: &T) -> bool {
     a == b
 }
@@ -576,6 +614,28 @@ fn strip_layout(s: String) -> String {
     static RE: std::sync::OnceLock<regex::Regex> = std::sync::OnceLock::new();
     let re = RE.get_or_init(|| regex::Regex::new(r"strides=\[[^\]]*\], layout=[A-Za-z]+ \(0x[0-9a-f]+\)").unwrap());
     re.replace_all(&s, "strides/layout").into_owned()
+}
+/// (arrays with ndim >= 2, those of them not C-contiguous) in a raw Debug text
+pub fn count_layouts(raw: &str) -> (u64, u64) {
+    static RE: std::sync::OnceLock<regex::Regex> = std::sync::OnceLock::new();
+    let re = RE.get_or_init(|| regex::Regex::new(r"shape=\[([^\]]*)\], strides=\[[^\]]*\], layout=([A-Za-z]*) \(0x[0-9a-f]+\), (?:const|dynamic) ndim=(\d+)").unwrap());
+    let mut n = 0;
+    let mut bad = 0;
+    for c in re.captures_iter(raw) {
+        let ndim: usize = c[3].parse().unwrap_or(0);
+        // arrays with a dimension of length <= 1 are both C and F; empty ones have no layout to speak of
+        let degenerate = c[1].split(',').filter_map(|x| x.trim().parse::<usize>().ok()).filter(|&d| d > 1).count() < 2;
+        if ndim >= 2 && !degenerate {
+            n += 1;
+            if !c[2].contains('C') {
+                bad += 1;
+            }
+        }
+    }
+    (n, bad)
+}
+pub fn dbg_raw<T: std::fmt::Debug>(x: &T) -> String {
+    format!("{:?}", x)
 }
 pub fn dbg_of<T: std::fmt::Debug>(x: &T) -> String {
     strip_layout(format!("{:?}", x))
@@ -587,7 +647,7 @@ pub fn dbg_pretty<T: std::fmt::Debug>(x: &T) -> String {
 impl<'a, T: std::fmt::Debug> Spec<'a, T> {
     /// type with Debug but without (usable) PartialEq
     pub fn plain(observe: &'a dyn Fn(&T) -> Ob) -> Spec<'a, T> {
-        Spec { eq: None, observe, debug: Some(dbg_of::<T>), debug_mode: DebugMode::Exact, fixed_point: Ok(()), json: false, nontrivial: true, expect_ser_refusal: false, opaque_debug: false, mutate: None }
+        Spec { eq: None, observe, debug: Some(dbg_of::<T>), debug_mode: DebugMode::Exact, fixed_point: Ok(()), json: false, nontrivial: true, expect_ser_refusal: false, opaque_debug: false, mutate: None, debug_raw: Some(dbg_raw::<T>) }
     }
 }
 impl<'a, T: std::fmt::Debug + PartialEq> Spec<'a, T> {
